@@ -186,13 +186,26 @@ fn classify_a(bk: usize, style: Style, hist: &[Rev], container_base: bool) -> Op
 // ---------------------------------------------------------------------------------------------
 // Producer B: the same edits replayed through IncrementalDocument
 
+/// what follows the final %%EOF of the base file producer B starts from (index 0 = as lopdf writes it)
+const TAILS: [&[u8]; 8] = [b"", b"\n", b"\r\n", b"\r", b"\n\n", b" \n", b"\n  ", b"\r\n\r\n"];
+
 fn check_b(bk: usize, table: bool, hist: &[Rev]) -> Result<(), String> {
+    check_b_tail(bk, table, hist, 0)
+}
+
+fn check_b_tail(bk: usize, table: bool, hist: &[Rev], tail: usize) -> Result<(), String> {
     let (objects, trailer, designated) = base(bk);
     let mut doc = Document::with_version("1.6");
     doc.objects = objects.clone();
     doc.trailer = trailer.clone();
     doc.max_id = objects.keys().map(|k| k.0).max().unwrap();
     let mut bytes = util::save_bytes(&doc, table)?;
+    if tail != 0 {
+        while bytes.ends_with(b"\n") || bytes.ends_with(b"\r") || bytes.ends_with(b" ") {
+            bytes.pop();
+        }
+        bytes.extend_from_slice(TAILS[tail]);
+    }
     let mut model = objects.clone();
     for (j, r) in hist.iter().enumerate() {
         let mut inc: IncrementalDocument = match util::guard(|| IncrementalDocument::load_from(bytes.as_slice())) {
@@ -454,7 +467,7 @@ fn main() {
         } else if c["producer"].as_str() == Some("A") {
             check_a_order(bk, if table { Style::Table } else { Style::Stream }, &hist, c["container_base"].as_bool().unwrap_or(false), true, c["member_order"].as_u64().unwrap_or(0) as usize).err().map(|e| e.1)
         } else {
-            check_b(bk, table, &hist).err()
+            check_b_tail(bk, table, &hist, c["tail"].as_u64().unwrap_or(0) as usize).err()
         };
         match &res {
             Some(m) => println!("observed: {}", m),
@@ -466,7 +479,7 @@ fn main() {
         "all histories of <= k revisions (k=2 quick, 3 thorough) over 3 base documents x revision menu {8 subsets of 3 designated objects to \
          replace} x {0,1,2 added objects} x {plain, object stream} (stream files) x {xref table, xref stream}; producer A = reference writer \
          (every history prefix is itself a node of the tree and is loaded as a complete file), producer B = IncrementalDocument replay with reload \
-         after every step; a state is a history prefix, a transition appends one revision; non-trivial = at least one object redefined",
+         after every step, also on base files with 7 kinds of white space after the final %%EOF and with 127..130 (to 300 in thorough) appended revisions; a state is a history prefix, a transition appends one revision; non-trivial = at least one object redefined",
     );
     run.assume("no revision frees an object; no hybrid-reference files; the schedule is pinned (merge-order hook in Sorted mode), schedule independence is C08's subject");
     let k = if run.thorough { 3 } else { 2 };
@@ -562,6 +575,43 @@ fn main() {
                 }
             });
         }
+    }
+    // producer B on top of base files with every kind of white space after the final %%EOF, and long histories
+    // (the Prev chain as a quantity: 1, 2, 127 .. 130, 300 appended revisions)
+    {
+        let one = |mask: u8, add: u8| Rev { mask, add, objstm: false };
+        let mut cases: Vec<(usize, bool, Vec<Rev>, usize)> = vec![];
+        for bk in 0..3usize {
+            for table in [true, false] {
+                for tail in 1..TAILS.len() {
+                    cases.push((bk, table, vec![one(1, 0), one(2, 1)], tail));
+                    cases.push((bk, table, vec![one(5, 1)], tail));
+                }
+            }
+        }
+        let depths: &[usize] = if run.thorough { &[16, 64, 126, 127, 128, 129, 130, 131, 200, 300] } else { &[127, 128, 129, 130] };
+        for (i, d) in depths.iter().enumerate() {
+            // every revision replaces one of the designated objects in turn; nothing re-lists the other base objects
+            let h: Vec<Rev> = (0..*d).map(|j| one(1 << (j % 3), (j % 5 == 0) as u8)).collect();
+            cases.push((i % 3, i % 2 == 0, h, 0));
+        }
+        run.add("producer_b_tail_and_depth_cases", cases.len() as u64);
+        run.add_states(cases.iter().map(|c| c.2.len() as u64).sum());
+        run.add_transitions(cases.iter().map(|c| c.2.len() as u64).sum());
+        util::par_for(cases.len(), |i| {
+            let (bk, table, h, tail) = &cases[i];
+            run.eval(h.len() as u64);
+            run.nontrivial(1);
+            match check_b_tail(*bk, *table, h, *tail) {
+                Ok(()) => run.add_traces(1),
+                Err(m) => run.fail(
+                    None,
+                    json!({"producer": "B", "base": bk, "style": if *table {"table"} else {"stream"}, "history": hist_json(h), "tail": tail}),
+                    &m,
+                    "incremental save keeps the old bytes, appends only changed objects with a section pointing back, leaves the previous view untouched, reloads to the model",
+                ),
+            }
+        });
     }
     run.sample(json!({"producer": "A", "base": 1, "style": "stream", "history": [[5, 1, true], [1, 0, false]], "meaning": "[replace-mask over 3 designated objects, objects added, stored in an object stream]"}));
     run.sample(json!({"producer": "B", "base": 2, "style": "table", "history": [[7, 2, false], [2, 1, false]]}));
